@@ -77,6 +77,7 @@ func (refmux) Generate(r *core.PRNG, tier string, idx int64) any {
 		}
 	}
 	cfg.SplitPAT = cfg.PMT >= 2 && r.Chance(1, 4)
+	cfg.PATMove = cfg.PMT >= 1 && cfg.PATRepeat >= 2 && !cfg.Straddle && r.Chance(1, 6)
 	if idx%300 == 9 && cfg.ES > 0 {
 		cfg.HugePES = true // a unit of more than a thousand packets
 	}
